@@ -73,6 +73,15 @@ def cases(tier, seed):
                     cs.append({'scen': 'ttsvd', 's': dict(base, rmax=rm)})
             if j % 3 == 2 and d >= 2:
                 cs.append({'scen': 'ttsvd', 's': dict(base, rmax=[1] + [1 + (k % 2) for k in range(d - 1)] + [1])})
+                cs.append({'scen': 'ttsvd', 's': dict(base, rmax=[1] + [50] * (d - 1) + [1])})
+    # single precision tag, incl. one long mode (dtype-dependent thresholds scale with the unfolding size)
+    for shp, pat in [([2, 2], [[0, 0], [1, 1]]), ([3, 3], [[0, 0], [1, 1], [2, 2]]), ([20000, 2], [[0, 0], [7, 1]])] + \
+                    ([([3, 20000], [[0, 5], [1, 1], [2, 19999]]), ([20000, 2, 2], [[0, 0, 0], [3, 1, 1]])] if th else []):
+        for dt in ('float32', 'float64'):
+            if dt == 'float64' and max(shp) < 1000:
+                continue
+            cs.append({'scen': 'ttsvd', 's': {'shape': shp, 'pattern': pat, 'dtype': dt}})
+            cs.append({'scen': 'ttsvd', 's': {'shape': shp, 'pattern': pat, 'dtype': dt, 'entry': 'numpy'}})
     # G: arbitrary (sign-free) entries where every unfolding has one row or one column
     for shp in [[1, 3], [3, 1], [1, 1, 3], [1, 3, 1], [3, 1, 1], [1, 4]] + ([[1, 1, 1, 4], [2, 1, 1], [1, 1, 2, 1]] if th else []):
         cs.append({'scen': 'ttsvd', 's': {'shape': shp, 'pattern': [], 'general': True}})
